@@ -4,6 +4,7 @@ a == In("a")
 b == In("b")
 p == In("p")
 l == In("l")
+d == In("d")
 BinOps == {"add", "sub", "mul", "floordiv", "mod", "lt", "le", "eq", "ne", "gt", "ge"}
 \* operators with a reactive left operand, with a constant left operand (reflected) and with two reactive operands
 EOps == {Bin(op, a, C(2)) : op \in BinOps} \cup {Bin(op, C(2), a) : op \in BinOps} \cup {Bin(op, a, b) : op \in {"add", "floordiv", "mod", "lt"}}
@@ -14,6 +15,7 @@ EBasic == { Bin("add", a, a),                                   \* one input as 
             Un("neg", a), Un("abs", Bin("sub", a, C(1))), Un("not", a), Un("bool", a), Un("len", l),
             Idx(l, a), Idx(l, C(0)), Bin("add", Idx(l, a), b),
             And(a, b), Or(a, b), And(a, C(7)), InL(a, l), Pipe(a, b), Pipe(a, C(3)), PipeKw(a, b), PipeKw(a, p), Bin("add", PipeKw(a, b), C(1)), Map(l), Count(l, a), IsNone(a, FALSE), IsNone(Bin("add", a, b), TRUE),
+            DCode(d), Bin("add", DCode(d), a), Un("len", d),        \* a dictionary input whose keys get renamed
             Bin("floordiv", C(4), Bin("sub", a, C(1))),         \* raises at a = 1 and recovers
             BindF(a, p), Bin("add", BindF(a, p), C(1)), Bin("add", b, BindF(a, C(1))) }
 EWhere == { Where(a, b, p), Where(a, C(5), C(6)), Where(Bin("gt", a, C(1)), b, C(0)),
